@@ -13,6 +13,12 @@ cargo build --offline -q -p grass --bin grass 2>&1 | grep -E "^error" | head -3
 if [ -f $OUT/demo/demo.sh ]; then
   ( cd $OUT/demo && bash demo.sh $CARGO_TARGET_DIR/debug/grass >/tmp/mut/$P.demo.mut 2>&1; echo "demo with patch: exit $?" )
   ( cd $OUT/demo && bash demo.sh /repo/target/debug/grass >/tmp/mut/$P.demo.clean 2>&1; echo "demo on clean tree: exit $?" )
+elif [ -f $OUT/demo/run.sh ]; then
+  # demonstration is an integration test: run.sh <worktree> copies demo.rs into crates/lib/tests and runs it
+  sh $OUT/demo/run.sh $WT > /tmp/mut/$P.demo.mut 2>&1; echo "demo (integration test via run.sh) with patch: exit $?"
+  git apply -R $OUT/patch.diff
+  sh $OUT/demo/run.sh $WT > /tmp/mut/$P.demo.clean 2>&1; echo "demo on clean tree: exit $?"
+  git apply $OUT/patch.diff
 else
   echo "no demo.sh (files: $(ls $OUT/demo))"
 fi
